@@ -73,7 +73,6 @@ int vf_main(void) {
     start_ret = nondet_bool();
 #ifdef VF_INNER
     inner = nondet_uchar(); VF_ASSUME(inner < 4);
-    VF_ASSUME(!(inner == 2 && !start_ret));        /* stop-self followed by a refusing start: outcome not defined by the property */
 #endif
     _Bool denied_ctx_inside = 0;                   /* M_MOD_DENY_CTX only matters while curr_mod is set: nested calls */
 
@@ -99,8 +98,9 @@ int vf_main(void) {
                 if (tok > 1) { VF_CHECK(inner_r == 0, "pause from inside on_start"); exp = start_ret ? M_MOD_PAUSED : M_MOD_STOPPED; e_stop = start_ret ? 0 : 1; }
                 else { exp = start_ret ? M_MOD_RUNNING : M_MOD_STOPPED; e_stop = start_ret ? 0 : 1; }
             } else if (inner == 2) {
+                /* a start callback that stops its own module AND refuses: the module was stopped once, so on_stop runs once */
                 if (tok > 1) { VF_CHECK(inner_r == 0, "stop from inside on_start"); exp = M_MOD_STOPPED; e_stop = 1; }
-                else exp = M_MOD_RUNNING;
+                else { exp = start_ret ? M_MOD_RUNNING : M_MOD_STOPPED; e_stop = start_ret ? 0 : 1; }
             } else {
                 if ((mod->flags & M_MOD_PERSIST) && looping) { VF_CHECK(inner_r < 0, "persistent module not deregistered while looping"); if (start_ret) exp = M_MOD_RUNNING; else { exp = M_MOD_STOPPED; e_stop = 1; } }
                 else { VF_CHECK(inner_r == 0, "deregister from inside on_start"); exp = M_MOD_ZOMBIE; e_stop = 1; }
